@@ -204,9 +204,17 @@ def spec(sp, alt=None, eq='=', sep='\n', opbreak=None, parens=False, comments=Fa
     """Render a Spec to a grammar description (layout options: C19)."""
     R = Renderer(alt, sp.bytes_mode, opbreak, parens, eq)
     if bare:
-        # a grammar that is just an expression
-        assert len(sp.rules) == 1 and not sp.ignores and not sp.name
-        return R.r(sp.rules[0][1][2]) + '\n'
+        # a grammar that is just an expression (bare = True, or (text before, text after) the expression);
+        # a `grammar <name>` header may precede it
+        assert len(sp.rules) == 1 and not sp.ignores
+        before, after = ('', '\n') if bare is True else bare
+        head = ''
+        if sp.name:
+            head = 'grammar %s' % sp.name
+            if sp.parent_name:
+                head += ' extends %s' % sp.parent_name
+            head += '\n'
+        return head + before + R.r(sp.rules[0][1][2]) + after
     lines = []
     if sp.name:
         head = 'grammar %s' % sp.name
